@@ -4,7 +4,7 @@ import vf
 SPEC = dict(
     level="proof",
     harness=dict(pkg_dir="index", run="TestVerifC38$", files=["index/zz_verif_c38_test.go"],
-                 n_quick=300, n_thorough=3000),
+                 n_quick=300, n_thorough=1000),
     runner=dict(imports=["From ZV Require Import Lib.Base Model.Incremental.", "Require Import Coq.Strings.String."],
                 case_type="c38case", mismatch_fn="c38_mismatches", shard=300),
     extra_targets=("Generated/HashFields.vo",),
